@@ -94,6 +94,16 @@ def step? : List String → Option String
       | some row => "ok " ++ " ".intercalate (row.toList.map toString)
       | none => "panic"
     | _ => "bad-op"
+  | ["htj2k-uvlctbl", t, i] =>
+    some <| match nats? [t, i] with
+    | some [t, i] => s!"ok {if t = 0 then Htj2k.uvlcTbl0 i else Htj2k.uvlcTbl1 i}"
+    | _ => "bad-op"
+  | ["htj2k-uvlc-pair", ini, u0, u1] =>
+    some <| match nats? [ini, u0, u1] with
+    | some [ini, u0, u1] =>
+      let c := if ini = 1 then Htj2k.encodeInitialUVLC u0 u1 else Htj2k.encodeNonInitialUVLC u0 u1
+      s!"ok {c.1} {c.2}"
+    | _ => "bad-op"
   | ["htj2k-signmag", kmax, v] =>
     some <| match kmax.toNat?, v.toInt? with
     | some k, some v => s!"ok {Htj2k.fromSignMag k (Htj2k.toSignMag k v)}"
